@@ -67,6 +67,9 @@ def work_objects(bins, seed, n, ascii_only):
                 # a number beyond PEP 440's integer type: outside C06's domain (C07 judges silent changes)
                 stats["pep440_out_of_domain"] = stats.get("pep440_out_of_domain", 0) + 1
                 continue
+            if fmt == "semver" and "core-int-above-limit" in notes and not (isinstance(got, dict) and "panic" in got):
+                stats["semver_out_of_domain"] = stats.get("semver_out_of_domain", 0) + 1
+                continue
             if got != exp:
                 sig = classify(fmt, got, exp, notes, schema, v, ascii_only)
                 bad.append((sig, "%s rendering %r, rules say %r" % (fmt, got, exp), case))
@@ -101,7 +104,9 @@ def work_binary(bins, seed, n):
             k += 1
             if r["timeout"]:
                 continue
-            if fmt == "pep440" and "above-u32" in notes and r["exit"] == 0:
+            if fmt == "pep440" and "above-u32" in notes:
+                continue
+            if fmt == "semver" and "core-int-above-limit" in notes:
                 continue
             if r["exit"] != 0 or r["out"] != exp + "\n":
                 sig = "u32-narrowing-in-render" if notes else ("panic-in-binary" if "panicked" in r["err"] else "render-differs")
